@@ -42,7 +42,8 @@ Inductive idiom :=
 | DefeatVirtualCond (cc : cond) (a b : operand)            (* j [defeat]; hcc a,b *)
 | StopInstall (H h fp ap tfp k : Z)                        (* mov [defeat],H; j B; mov [defeat],h; B:
                                                               with H: mov [defeat],h; mov [fp],[tfp]; lwso [ap],[fp],k *)
-| ReturnProtection (N r : Z).                              (* j N; j [r]; halt *)
+| ReturnProtection (N r : Z)                               (* j N; j [r]; halt *)
+| Call (F fp off : Z).                                     (* add [fp],[fp],-off; j F; halt; add [fp],[fp],off *)
 
 (* what the recogniser is told about the program: word size, address of the `defeat` word *)
 Record cfg := mkcfg { cw : Z; cdefeat : option Z }.
@@ -99,9 +100,16 @@ Variable code : Z -> option instr.
 Variable pc : Z.
 Notation w := (cw c).
 
-(* j X; halt *)
+(* j X; halt -- and, when it is bracketed by the frame-pointer rebase of eval_func_call
+   (pc-1: add [fp],[fp],-off ... pc+2: add [fp],[fp],off, same register, opposite offsets), a call *)
 Definition try_goto (L : Z) : option idiom :=
-  if is_halt (code (pc + 1)) then Some (Goto L) else None.
+  if is_halt (code (pc + 1)) then
+    match code (pc - 1), code (pc + 2) with
+    | Some (IArith Aadd (St f) (St f') (Imm n)), Some (IArith Aadd (St g) (St g') (Imm n')) =>
+        if (f =? f') && (f =? g) && (f =? g') && (n + n' =? 0) then Some (Call L f n') else Some (Goto L)
+    | _, _ => Some (Goto L)
+    end
+  else None.
 
 (* j N; hleu [r],1; mov [r],1; N = pc+3: hgtu [r],1 *)
 Definition try_boolnorm (L : Z) : option idiom :=
@@ -296,6 +304,10 @@ Definition premises_of (i : idiom) : Prop :=
   | ReturnProtection N r =>
       code pc = Some (IJ (Imm N)) /\ wrap w N = N /\ code (pc + 1) = Some (IJ (St r)) /\
       code (pc + 2) = Some IHalt /\ exists f, code N = Some (IFlag f)
+  | Call F fp off =>
+      code (pc - 1) = Some (IArith Aadd (St fp) (St fp) (Imm (- off))) /\
+      code pc = Some (IJ (Imm F)) /\ code (pc + 1) = Some IHalt /\
+      code (pc + 2) = Some (IArith Aadd (St fp) (St fp) (Imm off)) /\ wrap w F = F /\ code F <> None
   end.
 
 (* break a successful attempt into its boolean facts *)
@@ -327,7 +339,10 @@ Hypothesis HL : wrap w L = L.
 Hypothesis HP : code L <> None.
 
 Lemma try_goto_sound i : try_goto L = Some i -> premises_of i.
-Proof. unfold try_goto. intros H. brk H. inversion H; subst. facts. cbn. auto. Qed.
+Proof.
+  unfold try_goto. intros H. brk H; inversion H; subst; facts; subst; cbn; repeat split; auto.
+  match goal with E : ?n + ?n' = 0 |- _ => replace (- n') with n by lia end. assumption.
+Qed.
 
 Lemma try_boolnorm_sound i : try_boolnorm L = Some i -> premises_of i.
 Proof.
@@ -419,7 +434,7 @@ Definition unclassified (c : cfg) (prog : list instr) : list Z :=
 Definition sequential_idiom (i : idiom) : bool :=
   match i with
   | Goto _ | GotoReg _ | Branch _ _ _ _ _ | BranchBool _ _ | BoolNormalise _
-  | Guard _ _ _ _ | GuardEntry _ _ _ _ _ | GuardVla _ _ _ _ _ _ => true
+  | Guard _ _ _ _ | GuardEntry _ _ _ _ _ | GuardVla _ _ _ _ _ _ | Call _ _ _ => true
   | _ => false
   end.
 Definition sequential_only (c : cfg) (prog : list instr) : bool :=
@@ -714,6 +729,11 @@ Example classify_ex :
     [Some (Branch Clt Cge (St 4) (St 6) 4); Some (Goto 6); Some (GotoReg 4)]
   /\ sequential_only (mkcfg 2 None) prog = true /\ unclassified (mkcfg 2 None) prog = [].
 Proof. repeat split; vm_compute; reflexivity. Qed.
+(* a call: the goto bracketed by the fp rebase *)
+Example classify_ex_call :
+  classify (mkcfg 2 None) [IArith Aadd (St 2) (St 2) (Imm (-6)); IJ (Imm 4); IHalt; IArith Aadd (St 2) (St 2) (Imm 6); IHalt] 1
+    = Some (Call 4 2 6).
+Proof. vm_compute. reflexivity. Qed.
 (* a branch whose target tests the operands in the other order does not classify *)
 Example classify_ex_swapped :
   classify (mkcfg 2 None) [IJ (Imm 3); IHc Clt (St 4) (St 6); IHalt; IHc Cge (St 6) (St 4)] 0 = None.
